@@ -16,6 +16,7 @@ import (
 	"os"
 	"os/exec"
 	"path/filepath"
+	"strconv"
 	"strings"
 	"sync"
 	"syscall"
@@ -241,6 +242,19 @@ type c15Proc struct {
 
 var c15Env *bbsEnv
 
+// c15Wait: how long the controller waits for something a worker is expected to do (an event, a start-up, an exit) before it
+// reports "did not return". The verdict must not depend on how busy the machine is: the check re-runs every case reported as
+// hung alone with VERIF_C15_TIMEOUT_SCALE set, and only a hang that persists there counts.
+func c15Wait(seconds int) time.Duration {
+	scale := 1
+	if v := os.Getenv("VERIF_C15_TIMEOUT_SCALE"); v != "" {
+		if k, err := strconv.Atoi(v); err == nil && k >= 1 && k <= 100 {
+			scale = k
+		}
+	}
+	return time.Duration(seconds*scale) * time.Second
+}
+
 // length-prefixed byte strings
 func c15Dec(toks []string) [][]byte {
 	out := [][]byte{}
@@ -445,7 +459,7 @@ func c15RunPhases(mode int, tab [][]byte, phases []*c15Phase) []string {
 		go func() { w.cmd.Wait(); close(done) }()
 		select {
 		case <-done:
-		case <-time.After(2 * time.Second):
+		case <-time.After(c15Wait(10)):
 			w.cmd.Process.Kill() // SEM_UNDO gives the semaphore back
 			<-done
 		}
@@ -500,7 +514,7 @@ func c15RunPhases(mode int, tab [][]byte, phases []*c15Phase) []string {
 			if r != "ready" {
 				return "fail"
 			}
-		case <-time.After(10 * time.Second):
+		case <-time.After(c15Wait(10)):
 			return "hang"
 		}
 		return ""
@@ -515,7 +529,7 @@ func c15RunPhases(mode int, tab [][]byte, phases []*c15Phase) []string {
 		case "fail":
 			return []string{"3", "8"}
 		case "hang":
-			return []string{"2"}
+			return []string{"2", "77", "2"}
 		}
 		up[p] = true
 	}
@@ -526,7 +540,7 @@ func c15RunPhases(mode int, tab [][]byte, phases []*c15Phase) []string {
 		case <-readies[p]:
 			made[t] = true
 			return true
-		case <-time.After(10 * time.Second):
+		case <-time.After(c15Wait(10)):
 			return false
 		}
 	}
@@ -539,6 +553,15 @@ func c15RunPhases(mode int, tab [][]byte, phases []*c15Phase) []string {
 	retUID := make([]int, n)   // uid returned by NewRegister (mode 1)
 	trace := []string{}
 	hang := false
+	hangWhy := 0
+	// status 2 with, for the replay, the reason (1 an expected event did not arrive, 2 a process did not finish its start-up,
+	// 3 a worker did not acknowledge a new thread, 4 a call of a later phase did not return by itself) and the trace so far
+	hung := func(why int) []string {
+		if hangWhy != 0 {
+			why = hangWhy
+		}
+		return append([]string{"2", "77", fmt.Sprint(why)}, trace...)
+	}
 	sample := func() { trace = append(trace, "99", "11", fmt.Sprint(c15SemVal())) }
 	record := func(ev c15Event) {
 		if ev.t < 0 || ev.t >= n || phase[ev.t] == 5 {
@@ -567,7 +590,7 @@ func c15RunPhases(mode int, tab [][]byte, phases []*c15Phase) []string {
 		select {
 		case ev := <-events:
 			return ev, true
-		case <-time.After(8 * time.Second):
+		case <-time.After(c15Wait(8)):
 			hang = true
 			return c15Event{}, false
 		}
@@ -643,7 +666,7 @@ func c15RunPhases(mode int, tab [][]byte, phases []*c15Phase) []string {
 		case "fail":
 			return false
 		case "hang":
-			hang = true
+			hang, hangWhy = true, 2
 			return false
 		}
 		up[p] = true
@@ -652,7 +675,7 @@ func c15RunPhases(mode int, tab [][]byte, phases []*c15Phase) []string {
 		for t := off; t < off+np; t++ {
 			if procs[t] == p && !made[t] {
 				if !mkThread(t, p) {
-					hang = true
+					hang, hangWhy = true, 3
 					return false
 				}
 			}
@@ -691,18 +714,18 @@ func c15RunPhases(mode int, tab [][]byte, phases []*c15Phase) []string {
 			k = 1
 		}
 		trace = append(trace, fmt.Sprint(p), "13", fmt.Sprint(k))
-		if heldHere && anyPending() {
-			// the semaphore it held is given back by the kernel: exactly one queued call of another process obtains it
-			for {
-				ev, ok := nextEvent()
-				if !ok {
-					return
-				}
-				got := ev.code == 2 && pending[ev.t]
-				record(ev)
-				if got {
-					break
-				}
+		// the semaphore it held is given back by the kernel: one queued call of another process obtains it - unless the wait
+		// of every queued call ends with EINTR instead (semop is not restarted after a signal; an allowed step, the model's
+		// Intr): such a call returns its error, is no longer pending, and nobody is left to take the semaphore
+		for heldHere && anyPending() {
+			ev, ok := nextEvent()
+			if !ok {
+				return
+			}
+			got := ev.code == 2 && pending[ev.t]
+			record(ev)
+			if got {
+				break
 			}
 		}
 		sample()
@@ -712,7 +735,7 @@ func c15RunPhases(mode int, tab [][]byte, phases []*c15Phase) []string {
 		np = len(ph.procs)
 		for t := 0; t < np; t++ {
 			if up[ph.procs[t]] && !mkThread(off+t, ph.procs[t]) {
-				return []string{"2"}
+				return hung(3)
 			}
 		}
 		for _, s := range ph.sched {
@@ -729,7 +752,7 @@ func c15RunPhases(mode int, tab [][]byte, phases []*c15Phase) []string {
 				leave(v, kind == 3)
 			}
 			if hang {
-				return []string{"2"}
+				return hung(1)
 			}
 		}
 		for t := off; t < off+np; t++ { // the threads of a process that never came up cannot run: bad case
@@ -753,12 +776,12 @@ func c15RunPhases(mode int, tab [][]byte, phases []*c15Phase) []string {
 			}
 		}
 		if hang {
-			return []string{"2"}
+			return hung(1)
 		}
 		if pi > 0 { // a phase issued after all earlier calls returned must complete by itself
 			for t := off; t < off+np; t++ {
 				if phase[t] < 4 {
-					return []string{"2"}
+					return hung(4)
 				}
 			}
 		}
@@ -877,7 +900,7 @@ func c15Stress(args [][]string) []string {
 			if !okk {
 				return "fail"
 			}
-		case <-time.After(10 * time.Second):
+		case <-time.After(c15Wait(10)):
 			return "hang"
 		}
 		return ""
@@ -913,7 +936,7 @@ func c15Stress(args [][]string) []string {
 	for p := 0; p < nproc && !hang; p++ { // every call of every worker has returned; the workers stay alive
 		select {
 		case <-sdone:
-		case <-time.After(40 * time.Second):
+		case <-time.After(c15Wait(40)):
 			hang = true
 		}
 	}
@@ -928,7 +951,7 @@ func c15Stress(args [][]string) []string {
 			if !r.ok {
 				hang = true
 			}
-		case <-time.After(10 * time.Second):
+		case <-time.After(c15Wait(10)):
 			hang = true
 		}
 		if hang {
